@@ -49,10 +49,10 @@ type rule struct {
 	gen  func(r *rand.Rand) []piece
 }
 
-func st(n *node) piece          { return piece{n: n} }
-func act(name string) piece     { return piece{act: "act:" + name} }
-func await(name string) piece   { return piece{act: "await:" + name} }
-func rawPiece(s string) piece   { return piece{raw: s} }
+func st(n *node) piece                      { return piece{n: n} }
+func act(name string) piece                 { return piece{act: "act:" + name} }
+func await(name string) piece               { return piece{act: "await:" + name} }
+func rawPiece(s string) piece               { return piece{raw: s} }
 func pick(r *rand.Rand, s ...string) string { return s[r.Intn(len(s))] }
 
 func mamResult(qid, id, body string) *node {
